@@ -147,6 +147,47 @@ CHECKS += [
           "of the input, all filler words in order, no date digits); every token sequence up to depth 3/4 accepted strictly must give the same result with fuzzy and fuzzy_with_tokens.",
   "note": "Local-zone answers come from tz.tzlocal() (C08); a callable tzinfos consulted without zone text is left unjudged."},
 ]
+# ---- what the build added after these texts were first written (widenings listed in DESIGN.md 7.6-7.8); numbers
+# in the texts above that these sentences supersede are corrected here
+_REPLACE = {
+ "C10": [("the memo must always be a prefix of it, and the listing", "a memo that is not a prefix of it triggers one more observable listing on a rebuilt object, and the listing"),
+         ("Live iterators kept across a mutation are not part of the statement and are not explored.",
+          "Live iterators kept across a mutation are in the alphabet: later iterations and queries must be right whatever such an iterator does; its own output after the mutation is not judged.")],
+ "C11": [("lock seam rebinds dateutil.rrule._thread.allocate_lock (bind asserted; failure exits 2)",
+          "lock seam: dateutil.rrule._thread.allocate_lock plus any lock-typed attribute of the object, its cached members, their classes and private helper objects (a tree with no bindable lock exits 2, never 1)"),
+         ("preemption bound 2 (thorough 3)", "preemption bound 2 (thorough: 2, and 3 for lengths 0-2 of the light driver; the heavier drivers complete bound 2 for lengths 0-1 and bound 1 above; every exploration runs to completion)")],
+ "C12": [("For 8 finite rule/set objects", "For 12 finite rule/set objects (incl. BYSETPOS rules and rules whose BY-parts are defaults taken from the start)")],
+ "C06": [("16 synthetic files", "21 synthetic files (also: a daylight type listed first, 200 local time types)"),
+         ("in-memory archive (hard link, sym link, METADATA)", "in-memory archive (hard and symbolic link entries before or after their targets)")],
+ "C17": [("13 malformed definitions must raise ValueError", "a malformed menu (mandatory lines missing from any component, TZID missing from any zone of a multi-zone text, bad offsets, unknown or unclosed components) must raise ValueError"),
+         ("probes around the transitions of 1995 and 2024", "probes around the transitions of 1995 and 2024 and the second onset of the definition's first year")],
+ "C02": [("44 templates", "54 templates (also the time of day before the date, a day glued to a month name)"),
+         ("bind asserted", "bound iff the pivot follows it; otherwise only the real clock is examined")],
+ "C07": [("1..9 fraction digits", "1..15 fraction digits")],
+ "C15": [("31 partial texts", "about 300 partial texts (a small grammar of weekday / date part / time part, and two-number dates under the matching flags)"),
+         ("8 tzinfos forms", "10 tzinfos forms"), ("5 process TZ settings", "7 process TZ settings (incl. a local zone that names its standard time UTC and has a summer time)")],
+}
+_ADD = {
+ "C01": " Built later: COUNT and UNTIL together, nth-weekday ordinals up to 53 in every scope, BYSETPOS +-366 with an all-days BYDAY, every month named by some BYMONTH value, a start whose hour, minute and second lie in different residue classes.",
+ "C03": " Built later: every yearday / nlyearday value 0..367, alone and with nine companion fields, resolved by the reference's own calendar arithmetic.",
+ "C05": " Built later: hand-written PEP 495 tzinfo classes (no is_ambiguous of their own; honest and flat dst()) over the same timelines, so that the library's generic classification code is judged as well.",
+ "C04": " Built later: probes reach past a final transition at 2^31-1; rule times with seconds; Monday rules; a naive conversion result is a violation of its own.",
+ "C08": " Built later: hh:mm:ss rule times, Monday rules, standard time named GMT/UTC, names without an offset, every separator-terminated proper prefix of four valid strings as malformed input.",
+ "C09": " Built later: aware pairs in a zone with DST on both sides of its transitions; years and months of the result may not have opposite signs.",
+ "C13": " Built later: HTAB folding, explicit plus signs, a TZID spelled with '-' and '+', COUNT with UNTIL, rule texts without FREQ and with X- parts in the malformed menu; the rule is printed and listed again after the round trip (the text of the re-read rule is not compared).",
+ "C14": " Built later: bytes are the UTF-8 encoding of every token pair (non-ASCII included), a whole-process call-order differential in fresh interpreters, a change of the process zone between two calls (same zone names, other offsets), nine long inputs (20 000-100 000 tokens) under a CPU-time cap.",
+ "C16": " Built later: non-integer Decimal and Fraction years/months must be rejected like floats.",
+ "C18": " Built later: 28 near-key request pairs (each result must behave as a zone freshly built from its own request), eviction scenarios beyond the strong-cache size, gettz with cache size 0 and with a thread shrinking the cache, the empty name under a TZ setting, synthetic tzfiles that differ in one respect only (phase, names, offsets, same file name).",
+ "C20": " Built later: a field-boundary part (every field at and just outside its range), str / bytes / text-stream / byte-stream equivalence on texts with surrounding white space.",
+}
+for _c in CHECKS:
+    for _a, _b in _REPLACE.get(_c["id"], []):
+        for _k in ("text", "note"):
+            if _a in _c[_k]:
+                _c[_k] = _c[_k].replace(_a, _b)
+    if _c["id"] in _ADD:
+        _c["text"] += _ADD[_c["id"]]
+
 _claimed = {c["id"] for c in CHECKS}
 NOT_APPLICABLE = [{"property_id": p, "reason": "check not built yet (work in progress; see DESIGN.md §5 build order)"}
                   for p in ALL if p not in _claimed]
